@@ -448,6 +448,9 @@ pub struct BackConnRecord {
     pub io_err: Option<i32>,
     pub closed_by_us: bool,
     pub parse_error: Option<String>,
+    /// bytes received that the strict reader has not been able to attribute to a message yet
+    #[serde(default)]
+    pub pending: usize,
     /// (request id, bytes of the response written, total)
     pub responded: Vec<(u64, usize, usize)>,
     pub t_close: u64,
@@ -490,6 +493,7 @@ impl H1Backend {
             r.requests = c.parser.done.clone();
             r.partial = c.parser.cur.clone();
             r.parse_error = c.parser.error.clone();
+            r.pending = c.parser.pending_bytes();
             v.push(r);
         }
         v.sort_by_key(|r| r.idx);
@@ -501,6 +505,7 @@ impl H1Backend {
         c.rec.requests = std::mem::take(&mut c.parser.done);
         c.rec.partial = c.parser.cur.take();
         c.rec.parse_error = c.parser.error.clone();
+        c.rec.pending = c.parser.pending_bytes();
         c.rec.t_close = now;
         self.records.push(c.rec);
     }
